@@ -272,20 +272,34 @@ Qed.
 Lemma div2_le n : (Nat.div2 n <= n)%nat.
 Proof. pose proof (Nat.div2_odd n) as H. lia. Qed.
 
+(* case analysis on a function id of the menu: ids 0 .. 15 one by one and a last case
+   S^16 id (the default branch of apply_fn).  The menu currently ends at 13; the two spare
+   levels fall into the default branch and are closed by the same tactics, so the menu can
+   grow a little without the case analyses below having to be re-nested. *)
+Ltac menu_cases id := do 16 (try (destruct id as [|id]; [|])).
+
 (* Every function of the menu but the shortening one (10) returns at least as many cells
-   as it receives, so its row result has one cell per column.  For function 10 it is false:
+   as it receives, or a typed slice, which row-wise Apply does not take over at all (row_cells
+   is ncols nils then - also for 12, the shorter []int, and 13, the longer []string); so its
+   row result has one cell per column.  For function 10 it is false:
    row_cells 2 (apply_fn 10 [CNil; CNil]) = [CNil]. *)
 Lemma row_cells_length id x : id <> 10%nat ->
   length (row_cells (length x) (apply_fn id x)) = length x.
 Proof.
   unfold row_cells. intros Hid.
-  destruct id as [|[|[|[|[|[|[|[|[|[|[|[|id]]]]]]]]]]]]; cbn [apply_fn];
+  menu_cases id; cbn [apply_fn];
     try (rewrite repeat_length; reflexivity); try congruence; rewrite firstn_length;
     rewrite ?rev_length, ?map_length, ?app_length; cbn [length]; lia.
 Qed.
 Example row_cells_length_needs_premise :
   row_cells 2 (apply_fn 10 [CNil; CNil]) = [CNil] /\ apply_row_cells 10 2 [CNil; CNil] = Err.
 Proof. vm_compute. split; reflexivity. Qed.
+Example row_cells_typed_other_length :
+  row_cells 2 (apply_fn 12 [CB true; CB true]) = [CNil; CNil] /\
+  row_cells 2 (apply_fn 13 [CB true; CB true]) = [CNil; CNil] /\
+  apply_row_cells 12 2 [CB true; CB true] = Ok [CNil; CNil] /\
+  apply_row_cells 13 2 [CB true; CB true] = Ok [CNil; CNil].
+Proof. vm_compute. repeat split; reflexivity. Qed.
 
 (* the function is applied exactly once per row, to that row's cells in sorted-column
    order: the successive arguments are map (map snd) (rows f), the i-th result is what
@@ -366,7 +380,7 @@ Proof.
 Qed.
 
 (* on a rectangular, non-empty frame row-wise Apply with a function that returns at least as
-   many cells as it receives (every function of the menu but 10) always succeeds.
+   many cells as it receives or a typed slice (every function of the menu but 10) always succeeds.
    With function 10 it is an error as soon as there is a row: apply_row_short_is_error. *)
 Theorem apply_row_total id f : id <> 10%nat -> rect f = true -> f <> [] ->
   exists g, op_apply_row id f = Ok g.
@@ -535,14 +549,14 @@ Qed.
 Lemma apply_col_empty id : op_apply_col id [] = Err.
 Proof. reflexivity. Qed.
 
-(* the menu: shapes of the column results.  Functions 10 and 11 hand back a slice of another
-   length, which column-wise Apply stores as it is (apply_col 11 [CNil] = Ok [CNil; CS s_k]);
-   the others keep the length *)
+(* the menu: shapes of the column results.  Functions 10-13 hand back a slice of another
+   length (10, 11: []interface{}; 12: []int; 13: []string), which column-wise Apply stores as
+   it is (apply_col 11 [CNil] = Ok [CNil; CS s_k]); the others keep the length *)
 Lemma apply_col_length id d r : fn_keeps_length id = true ->
   apply_col id d = Ok r -> length r = length d.
 Proof.
   unfold apply_col, fn_keeps_length.
-  destruct id as [|[|[|[|[|[|[|[|[|[|[|[|id]]]]]]]]]]]]; cbn [apply_fn]; intros Hk H;
+  menu_cases id; cbn [apply_fn]; intros Hk H;
     try discriminate; inversion H;
     rewrite ?rev_length, ?repeat_length, ?map_length, ?seq_length; reflexivity.
 Qed.
@@ -550,6 +564,25 @@ Lemma apply_col_length_short d : apply_col 10 d = Ok (firstn (Nat.div2 (length d
 Proof. reflexivity. Qed.
 Lemma apply_col_length_long d : apply_col 11 d = Ok (d ++ [CS s_k]).
 Proof. reflexivity. Qed.
+Lemma apply_col_length_short_ints d :
+  apply_col 12 d = Ok (map (CI KInt) (map Z.of_nat (seq 0 (Nat.div2 (length d))))).
+Proof. reflexivity. Qed.
+Lemma apply_col_length_long_strs d : apply_col 13 d = Ok (map CS (map (fun _ => s_k) d ++ [s_k])).
+Proof. reflexivity. Qed.
+(* the length of the stored column, for every function of the menu *)
+Lemma apply_col_length_any id d r : apply_col id d = Ok r ->
+  length r = match id with
+             | 10%nat | 12%nat => Nat.div2 (length d)
+             | 11%nat | 13%nat => S (length d)
+             | _ => length d
+             end.
+Proof.
+  unfold apply_col.
+  menu_cases id; cbn [apply_fn]; intros H; try discriminate; inversion H;
+    rewrite ?map_length, ?app_length, ?map_length, ?rev_length, ?repeat_length, ?seq_length;
+    cbn [length]; try reflexivity; try lia.
+  apply firstn_length_le. apply div2_le.
+Qed.
 
 (* ------------------------------------------------------------------ *)
 (* 5. the axis argument                                                *)
@@ -622,6 +655,17 @@ Example ex_apply_row_short : op_apply_row 10 ex_frame = Err.
 Proof. vm_compute. reflexivity. Qed.
 Example ex_apply_row_long : op_apply_row 11 ex_frame = Ok ex_frame.
 Proof. vm_compute. reflexivity. Qed.
+(* typed slices of another length: row-wise all cells become nil, column-wise the columns
+   change their length (all alike) *)
+Example ex_apply_row_typed :
+  op_apply_row 12 ex_frame = Ok [([97%N], ([97%N], [CNil; CNil; CNil])); ([98%N], ([98%N], [CNil; CNil; CNil]))] /\
+  op_apply_row 13 ex_frame = op_apply_row 12 ex_frame.
+Proof. vm_compute. split; reflexivity. Qed.
+Example ex_apply_col_typed :
+  op_apply_col 12 ex_frame = Ok [([97%N], ([97%N], [CI KInt 0])); ([98%N], ([98%N], [CI KInt 0]))] /\
+  op_apply_col 13 ex_frame =
+    Ok [([97%N], ([97%N], [CS s_k; CS s_k; CS s_k; CS s_k])); ([98%N], ([98%N], [CS s_k; CS s_k; CS s_k; CS s_k]))].
+Proof. vm_compute. split; reflexivity. Qed.
 Example ex_apply_row_total_premises : rect ex_frame = true /\ ex_frame <> [] /\ nrows ex_frame <> 0%nat.
 Proof. repeat split; discriminate. Qed.
 
